@@ -1,5 +1,6 @@
 SPECIFICATION TraceSpec
-CONSTANT MaxThreads = 4
+CONSTANT MaxThreads = 6
 INVARIANT LazyOnlyAbsent
+INVARIANT IssueOrder
 POSTCONDITION TraceAccepted
 CHECK_DEADLOCK FALSE
